@@ -1,4 +1,6 @@
 import SvModel.Props.C01
+import SvModel.Lemmas.PegFuel
+import SvModel.Gen.Entry
 import SvModel.Lemmas.Incomplete
 import SvModel.Gen.Marks
 import SvModel.Gen.M00
@@ -245,5 +247,39 @@ theorem C15_strict_implies_equal (fs fi : Nat)
                   | mk o2 s2 => intro h5; simp at h5; obtain ⟨rfl, rfl⟩ := h5; rfl
             | err ep => simp at hs
             | oof => simp at hs
+
+
+/-- the theorems above are about `parseWith`, which starts from `init()`: every one of the five parser entries of the source — the two
+    incomplete ones included — is `init(); PROD(s)` with `init()` clearing all three thread-local cells (regenerated from
+    `sv-parser-parser/src/lib.rs`) -/
+theorem C15_entries_start_from_init :
+    Gen.Entry.parserEntriesAll = true ∧
+    Gen.Entry.initCalls = ["nom_packrat::init!", "clear_directive", "clear_version"] ∧
+    (Gen.Entry.parserEntries.lookup "sv_parser_incomplete") = some "source_text_incomplete" ∧
+    (Gen.Entry.parserEntries.lookup "lib_parser_incomplete") = some "library_text_incomplete" := by
+  decide
+
+
+/-- **the outcome of a parse does not depend on the fuel of the model** (regenerated grammar, every start production, input, prior thread
+    state): a definite outcome with fuel `n` is the outcome — tree, end position, error position, thread state left behind — for every `m ≥ n` -/
+theorem C15_parse_fuel_independent (inp : Input) (start : Nat) (st : PState) (n m : Nat) (hnm : n ≤ m)
+    (h : NotOof (parseWith grammar inp start st n)) : parseWith grammar inp start st m = parseWith grammar inp start st n := by
+  unfold parseWith at h ⊢
+  exact eval_fuel_mono grammar inp n m hnm _ 0 {} st.init h
+
+/-- **strict accepts ⇒ incomplete returns the equal tree, without the fuel caveat**: if strict mode accepts with some fuel `n`, then for every
+    fuel `m ≥ n` with which the incomplete entry returns anything but the model-only "out of fuel", it returns the same end position and forest -/
+theorem C15_strict_implies_equal_any_fuel (fs fi : Nat)
+    (hf : (fs = idx_source_text ∧ fi = idx_source_text_incomplete) ∨
+          (fs = idx_library_text ∧ fi = idx_library_text_incomplete))
+    (inp : Input) (n m : Nat) (hnm : n ≤ m) (st st1 : PState) (q : Nat) (r : Rec) (ts : List Tree)
+    (h : parseWith grammar inp fs st n = (.ok q r ts, st1))
+    (hd : NotOof (parseWith grammar inp fi st m)) :
+    (parseWith grammar inp fi st m).1 = .ok q r ts := by
+  have hs : parseWith grammar inp fs st m = (.ok q r ts, st1) := by
+    rw [C15_parse_fuel_independent inp fs st n m hnm (by rw [h]; simp), h]
+  rcases C15_strict_implies_equal fs fi hf inp m st st1 q r ts hs with h1 | h1
+  · exact h1
+  · exact absurd h1 hd
 
 end Sv
